@@ -177,4 +177,27 @@ theorem faithful_of_small (c : Cfg) (s : State) (hv : ∀ sl, s.ver sl < 65536)
   unfold v16
   rw [Nat.mod_eq_of_lt h1, Nat.mod_eq_of_lt h2]
 
+/-- **window form**: if the untruncated slot version and the untruncated expected version of every pending
+comparison are less than 2^16 versions (= 2^15 rounds of the ring) apart, the 16-bit comparison is exact —
+also when the truncated version wraps between them -/
+theorem faithful_of_window (c : Cfg) (s : State)
+    (hwin : ∀ t sl E, (s.pc t).cmp c = some (sl, E) → s.ver sl < E + 65536 ∧ E < s.ver sl + 65536) : ∀ t, Faithful c s t := by
+  intro t sl E h
+  obtain ⟨h1, h2⟩ := hwin t sl E h
+  unfold v16
+  constructor
+  · intro e; omega
+  · intro e; rw [e]
+
+/-- for a comparison a ticket holder makes on its own ticket the slot can only be behind (`Inv.heldLt`), so the
+window is one-sided: the slot must be less than 2^15 rounds behind the waiting ticket -/
+theorem faithful_holder {c : Cfg} {y : Sys} (hI : Inv c y) (t : Nat) (sd : Side) (i : Nat)
+    (hh : (y.s.pc t).held sd i) (hwin : expVer c sd i < y.s.ver (slotOf c i) + 65536) :
+    (v16 (y.s.ver (slotOf c i)) = v16 (expVer c sd i) ↔ y.s.ver (slotOf c i) = expVer c sd i) := by
+  have := (hI.heldLt t sd i hh).2
+  unfold v16
+  constructor
+  · intro e; omega
+  · intro e; rw [e]
+
 end Babylon.BQ
